@@ -33,11 +33,12 @@ RULE = (
     'Models M = corpus start models (pheno, basic iv/oral, checked-in NONMEM models), optionally converted to the generic '
     'format, after 0-3 model-changing transformations from a table (add_iiv, add_covariate_effect, error models, '
     'peripheral/absorption/lag/bioavailability, joint distributions, fix_parameters[_to 0], boxcox, add_iov, allometry, '
-    'mu_reference_model/make_declarative as earlier steps ...), and generated $PRED / ADVAN control streams (pv.checks.c01.build) '
-    'with reassignment, IF blocks and intrinsic functions. refactor: one refactoring r from mu_reference_model, make_declarative, '
+    'mu_reference_model/make_declarative as earlier steps ...), and generated $PRED (>=3 statements) / ADVAN control streams '
+    '(pv.checks.c01.build, MOD switched off) with reassignment, IF blocks and intrinsic functions. refactor: one refactoring r from mu_reference_model, make_declarative, '
     'cleanup_model, greekify_model, rename_symbols(fresh names for parameters/rvs/variables), convert_model generic / '
     'generic->nonmem, unload/load_dataset, remove_unused_parameters_and_rvs, create/split_joint_distribution, '
-    'replace_fixed_thetas, replace_non_random_rvs; >=3 sample points per case. Non-trivial = M has a reassigned symbol, a '
+    'replace_fixed_thetas, replace_non_random_rvs; >=3 sample points per case; compared: dependent variables, every assigned '
+    'symbol that still exists (final value), ODE right-hand sides / doses / lag time / bioavailability per compartment. Non-trivial = M has a reassigned symbol, a '
     'Piecewise definition or an ODE system AND r changed the statements. solve_ode: linear 1-2 compartment (+depot) systems '
     'with bolus dose, optional bioavailability/lag/infusion (refusals counted); non-trivial = solved. evaluators: non-ODE '
     'models (generated $PRED with optional reassigned Y, pheno_linear, closed-form solved corpus models); non-trivial = '
@@ -57,6 +58,8 @@ ASSUMPTIONS = [
     'on the generic copy',
     'the refactor and evaluators oracles run in a forked child process per case (pharmpy.basic.Expr / symengine can kill the '
     'interpreter); a child killed by a signal is a violation interpreter-crash:signal<N>@<innermost pharmpy frame of the faulthandler dump>',
+    'a case whose child does not finish within 150 s (non-termination of symengine/sympy: observed for Mod(x, ETA) with ETA -> 0) is '
+    'killed and counted as rejected; generated models use no MOD for the same reason',
     'finite differences: central, h=1e-6, accepted only where h and 2h estimates agree (1e-6 relative) and no relational / floor / '
     'Abs / sign / Max / Min node changes its discrete state within +-1e-4',
 ]
@@ -88,11 +91,15 @@ def corpus_names():
     return list(corpus.names())
 
 
-def gen_model(gspec, ytail=0):
+def gen_model(gspec, ytail=0, allow_mod=False):
     """c01 generator spec -> (model, text). Reading is not under test here."""
     from pharmpy.modeling import read_model_from_string
 
+    # MOD is switched off (except for the spec of the known finding): pharmpy.basic.Expr.subs (symengine) kills the
+    # interpreter or does not terminate on Mod(x, ETA) with ETA -> 0 and on Mod(Piecewise(..), ..) -- see known/C07.json
     try:
+        if not allow_mod:
+            gspec = dict(gspec, feat=dict(gspec.get('feat') or {}, mod=False))
         b = c01.build(gspec)
     except (KeyError, IndexError, TypeError, ValueError, ZeroDivisionError, AttributeError) as e:
         raise Reject(f'generator spec not buildable: {type(e).__name__}')
@@ -104,6 +111,8 @@ def gen_model(gspec, ytail=0):
         _ = m.statements, m.parameters, m.random_variables
     except Exception as e:  # noqa  (property C01/C03 territory)
         raise Reject(f'generated model not readable: {type(e).__name__}')
+    if not allow_mod and _has_mod(m):
+        raise Reject('model contains Mod (symengine subs segfault / non-termination)')
     return m, text
 
 
@@ -258,6 +267,8 @@ def _p_join2(m, a):
     from pharmpy.modeling import create_joint_distribution
 
     names = list(m.random_variables.iiv.names)
+    if len(names) < 2:
+        raise ValueError('fewer than two IIV etas')
     i = a % max(1, len(names))
     j = (a // 7) % max(1, len(names))
     if i == j:
@@ -322,22 +333,30 @@ PRIORS = [
 ]
 
 
-def _idx(table, x):
-    """table index from an int (modulo) or a label (hand-written specs of known findings / regress files)"""
+def _idx(table, x, mix=0):
+    """table index from an int (modulo) or a label (hand-written specs of known findings / regress files).
+    `mix` (derived from other drawn integers of the spec) spreads Hypothesis' preference for small integers"""
     if isinstance(x, str):
         for i, (label, _) in enumerate(table):
             if label == x:
                 return i
         raise Reject(f'unknown label {x}')
-    return int(x or 0) % len(table)
+    return (int(x or 0) + mix) % len(table)
 
 
-def _corpus_name(x, names):
+def _corpus_name(x, names, mix=0):
     if isinstance(x, str):
         if x not in names:
             raise Reject(f'corpus model {x} not available')
         return x
-    return names[int(x or 0) % len(names)]
+    return names[(int(x or 0) + mix) % len(names)]
+
+
+def _mix(spec):
+    try:
+        return 7 * int(spec.get('a') or 0) + 13 * int(spec.get('k') or 0) + 3 * sum(int(x) for x in (spec.get('ren') or [])[:6])
+    except (TypeError, ValueError):
+        return 0
 
 
 def build_model(spec):
@@ -345,11 +364,11 @@ def build_model(spec):
     src = spec.get('src') or {}
     labels = []
     if src.get('kind') == 'gen':
-        m, _ = gen_model(src.get('spec') or {}, 0)
+        m, _ = gen_model(src.get('spec') or {}, 0, allow_mod=bool(src.get('allow_mod')))
         labels.append('src:gen-' + str((src.get('spec') or {}).get('kind')))
     else:
         names = corpus_names()
-        nm = _corpus_name(src.get('name'), names)
+        nm = _corpus_name(src.get('name'), names, _mix(spec))
         m = corpus.get(nm)
         labels.append('src:' + nm)
     note_model(m)
@@ -758,6 +777,10 @@ def apply_refactoring(rname, fn, m, spec, classes):
     except allowed as e:
         raise Reject(f'{rname}: {type(e).__name__}: {str(e)[:120]}')
     except Exception as e:  # noqa
+        if isinstance(e, RuntimeError) and 'piecewise undefined' in str(e):
+            # symengine's signal for a Piecewise none of whose (constant) conditions holds: the model has a symbol
+            # without value for every input -- outside the domain of function-preserving refactorings
+            raise Reject(f'{rname}: model has a Piecewise that is undefined for every input')
         where = innermost_pharmpy_frame(e)
         if where == 'outside-pharmpy':
             raise HarnessError(f'exception outside pharmpy in refactoring {rname}: {type(e).__name__}: {e}')
@@ -792,6 +815,39 @@ def has_fixed_rv_param(m, after_non_random=False):
             continue
         if any(p.fix for p in ps):
             return True
+    return False
+
+
+def first_definition_stale(m):
+    """a symbol assigned several times whose FIRST definition reads another symbol that is assigned several times"""
+    from pharmpy.model import Assignment
+
+    sts = list(m.statements)
+    idx = {}
+    for i, s in enumerate(sts):
+        if isinstance(s, Assignment):
+            idx.setdefault(str(s.symbol), []).append(i)
+    for name, pos in idx.items():
+        if len(pos) < 2:
+            continue
+        first = sts[pos[0]]
+        for t in first.expression.free_symbols:
+            tp = idx.get(str(t))
+            if tp and str(t) != name and len(tp) >= 2:
+                return True
+    return False
+
+
+def chained_alias(m):
+    """X = S where S is a symbol that is itself defined by an alias statement S = T"""
+    from pharmpy.model import Assignment
+
+    alias = set()
+    for s in m.statements:
+        if isinstance(s, Assignment) and s.expression.is_symbol():
+            if str(s.expression) in alias:
+                return True
+            alias.add(str(s.symbol))
     return False
 
 
@@ -839,7 +895,7 @@ def check_consistency(rname, m2):
 def run_refactor(spec):
     m, labels = build_model(spec)
     classes = list(labels)
-    rname, fn = REFACS[_idx(REFACS, spec.get('r'))]
+    rname, fn = REFACS[_idx(REFACS, spec.get('r'), 5 * _mix(spec) + 1)]
     classes.append('r:' + rname)
     feats = model_features(m)
     classes += ['M:' + f for f in sorted(feats)]
@@ -854,18 +910,22 @@ def run_refactor(spec):
         if mu_cond:
             classes.append('M:' + mu_cond.rstrip(':'))
 
-    fixed_rv = rname in ('replace_fixed_thetas', 'cleanup_model') and has_fixed_rv_param(m, after_non_random=(rname == 'cleanup_model'))
-    if fixed_rv:
+    decl_cond = 'first-definition-stale:' if rname in ('make_declarative', 'cleanup_model') and first_definition_stale(m) else ''
+    if not decl_cond and rname == 'cleanup_model' and chained_alias(m):
+        decl_cond = 'chained-alias:'
+    if decl_cond:
+        classes.append('M:' + decl_cond.rstrip(':'))
+    if rname in ('replace_fixed_thetas', 'cleanup_model') and has_fixed_rv_param(m, after_non_random=(rname == 'cleanup_model')):
         classes.append('M:fixed-rv-parameter')
     try:
         ref, m_used = apply_refactoring(rname, fn, m, spec, classes)
         m2 = ref.model
         check_consistency(rname, m2)
     except Violation as v:
+        if decl_cond and v.clause.startswith(f'refactor:{rname}:'):
+            raise Violation(f'refactor:{rname}:{decl_cond}' + v.clause[len(f'refactor:{rname}:'):], observed=v.observed, expected=v.expected, detail=v.detail)
         if mu_cond and ':crash:' in v.clause:
             raise Violation(f'refactor:{rname}:{mu_cond_crash}' + v.clause[len(f'refactor:{rname}:'):], observed=v.observed, expected=v.expected, detail=v.detail)
-        if fixed_rv and v.clause.startswith(f'refactor:{rname}:') and (':crash:' in v.clause or 'rv-parameter-missing' in v.clause):
-            raise Violation(f'refactor:{rname}:fixed-rv-parameter:' + v.clause[len(f'refactor:{rname}:'):], observed=v.observed, expected=v.expected, detail=v.detail)
         raise
     changed = stmts_key(m2) != stmts_key(m_used)
     if changed:
@@ -873,17 +933,13 @@ def run_refactor(spec):
 
     # joint/split: variances of the etas are untouched
     if rname in ('create_joint_distribution', 'split_joint_distribution', 'join_then_split', 'remove_unused_parameters_and_rvs'):
-        inits = {p.name: float(p.init) for p in m.parameters}
-        inits2 = {p.name: float(p.init) for p in m2.parameters}
+        # (initial estimates may be adjusted, e.g. to keep a joined block positive definite: only the symbol is compared)
         for n in m.random_variables.names:
             if n in m2.random_variables.names:
-                try:
-                    va = ev(m.random_variables[n].get_variance(n), inits)
-                    vb = ev(m2.random_variables[n].get_variance(n), inits2)
-                except EvalError:
-                    continue
-                if not close(va, vb, rtol=1e-12):
-                    raise Violation(f'refactor:{rname}:variance-changed', observed=vb, expected=va, detail=f'variance of {n}')
+                va = str(m.random_variables[n].get_variance(n))
+                vb = str(m2.random_variables[n].get_variance(n))
+                if va != vb:
+                    raise Violation(f'refactor:{rname}:variance-parameter-changed', observed=vb, expected=va, detail=f'variance of {n}')
 
     if rname == 'reload_dataset':
         _compare_datasets(m, m2)
@@ -904,7 +960,7 @@ def run_refactor(spec):
             if not stable_at(m, p, va):
                 continue
             kind, name, obs, exp = res
-            cond = mu_cond
+            cond = mu_cond or decl_cond
             raise Violation(
                 f'refactor:{rname}:{cond}{kind}',
                 observed=obs,
@@ -1181,7 +1237,7 @@ def eval_model_source(spec):
     kind = src.get('kind')
     labels = []
     if kind == 'gen':
-        m, text = gen_model(src.get('spec') or {}, int(src.get('ytail') or 0))
+        m, text = gen_model(src.get('spec') or {}, int(src.get('ytail') or 0), allow_mod=bool(src.get('allow_mod')))
         labels.append('src:gen-pred')
         if int(src.get('ytail') or 0) % len(YTAILS):
             labels.append('ytail')
@@ -1248,6 +1304,18 @@ def _pheno_linear():
     if 'pheno_linear' not in _CACHE:
         _CACHE['pheno_linear'] = _quiet(load_example_model, 'pheno_linear')
     return _CACHE['pheno_linear']
+
+
+def eguard(fn, allowed, clause):
+    """guard for the dataset evaluators: internal errors raised inside eval_expr (numpy lambdify of the expression)
+    get one clause prefix whatever evaluate_* function reached it"""
+    try:
+        return guard(fn, allowed=allowed, clause=clause)
+    except Violation as v:
+        if '@internals/expr/eval.py' in v.clause:
+            typ = v.clause.split(':')[-2] if v.clause.count(':') >= 2 else 'error'
+            raise Violation('crash:eval_expr:' + v.clause.split('@')[0].rsplit(':', 1)[-1], observed=v.observed, expected=v.expected, detail=f'{clause[len("crash:"):]}: {v.detail}')
+        raise
 
 
 def _sym(e):
@@ -1373,8 +1441,13 @@ def run_evaluators(spec):
     # symengine signals an undefined value (division by zero at eta=0, Piecewise without matching branch) by RuntimeError
     doc = (ValueError, NotImplementedError, RuntimeError)
 
+    assigned = set(assigned_names(m))
+
     def sym_check(e, label):
         extra = sorted({str(x) for x in e.free_symbols} - inputs)
+        if extra and not set(extra) & assigned:
+            # the model itself reads a symbol nothing defines (model reading is property C01): not a case
+            raise Reject('model reads a symbol that nothing defines')
         if extra:
             raise Violation(f'{label}:leftover-symbol', observed=extra, expected='only parameters, random variables and data columns', detail=f'{e}\n{stmts_key(m)}')
 
@@ -1446,6 +1519,10 @@ def run_evaluators(spec):
                 try:
                     an = ev(_sym(ge), ME.base_env(m, base))
                 except Undefined as u:
+                    if str(u).startswith('Derivative'):
+                        # d|x|/dx etc. left unevaluated by symengine: symbolically right, not numerically checkable here
+                        classes.append('gradient-with-unevaluated-derivative')
+                        continue
                     raise Violation(f'calculate_{"eta" if which == "eta" else "epsilon"}_gradient_expression:undefined', detail=f'{ge}: {u}')
                 if not math.isfinite(an) or abs(an - g) > 1e-5 * max(abs(an), abs(g)) + 10 * noise / 1e-6 * 1e-6 + 1e-7:
                     raise Violation(
@@ -1511,13 +1588,13 @@ def run_evaluators(spec):
         # symengine raises RuntimeError('piecewise undefined for this domain') when a variable without value on some
         # rows (IF without ELSE on a never-assigned symbol) is evaluated: outside the domain where a value exists
         ev_allowed = doc + (RuntimeError,)
-        s_pred = guard(lambda: _quiet(pm.evaluate_population_prediction, ms, parameters=params), allowed=ev_allowed, clause=ccond + 'crash:evaluate_population_prediction')
+        s_pred = eguard(lambda: _quiet(pm.evaluate_population_prediction, ms, parameters=params), allowed=ev_allowed, clause='crash:evaluate_population_prediction')
         compare_series('evaluate_population_prediction', s_pred, False)
-        s_ipred = guard(lambda: _quiet(pm.evaluate_individual_prediction, ms, etas=eta_df, parameters=params), allowed=ev_allowed, clause=ccond + 'crash:evaluate_individual_prediction')
+        s_ipred = eguard(lambda: _quiet(pm.evaluate_individual_prediction, ms, etas=eta_df, parameters=params), allowed=ev_allowed, clause='crash:evaluate_individual_prediction')
         compare_series('evaluate_individual_prediction', s_ipred, True)
         # gradients on the dataset
-        G = guard(lambda: _quiet(pm.evaluate_eta_gradient, ms, etas=eta_df, parameters=params), allowed=ev_allowed, clause=ccond + 'crash:evaluate_eta_gradient')
-        H = guard(lambda: _quiet(pm.evaluate_epsilon_gradient, ms, etas=eta_df, parameters=params), allowed=ev_allowed, clause=ccond + 'crash:evaluate_epsilon_gradient')
+        G = eguard(lambda: _quiet(pm.evaluate_eta_gradient, ms, etas=eta_df, parameters=params), allowed=ev_allowed, clause='crash:evaluate_eta_gradient')
+        H = eguard(lambda: _quiet(pm.evaluate_epsilon_gradient, ms, etas=eta_df, parameters=params), allowed=ev_allowed, clause='crash:evaluate_epsilon_gradient')
         if list(G.columns) != [f'dF/d{n}' for n in etas] or list(H.columns) != [f'dY/d{n}' for n in epss]:
             raise Violation('evaluate_gradient:columns', observed=(list(G.columns), list(H.columns)))
         for r in range(0, nrow, 3):
@@ -1554,7 +1631,9 @@ def run_evaluators(spec):
         if cands:
             vn = cands[int(spec.get('a') or 0) % len(cands)]
             pe = {k: v for j, (k, v) in enumerate(params.items()) if j % 2 == 0}
-            ser = guard(lambda: _quiet(pm.evaluate_expression, ms, vn, parameter_estimates=pe), allowed=ev_allowed, clause=ccond + 'crash:evaluate_expression')
+            ser = eguard(lambda: _quiet(pm.evaluate_expression, ms, vn, parameter_estimates=pe), allowed=ev_allowed, clause='crash:evaluate_expression')
+            if len(ser) != nrow:
+                raise Violation('length:evaluate_expression', observed=len(ser), expected=nrow, detail=f'evaluate_expression({vn}) returned {len(ser)} value(s) for {nrow} data records\n{stmts_key(m)}')
             inits = {pp.name: float(pp.init) for pp in m.parameters}
             full = {**inits, **pe}
             for r in range(nrow):
@@ -1656,7 +1735,7 @@ def _prewarm(spec):
             elif src.get('kind') == 'linear':
                 _pheno_linear()
             elif src.get('kind') != 'gen':
-                corpus.get(_corpus_name(src.get('name'), corpus_names()))
+                corpus.get(_corpus_name(src.get('name'), corpus_names(), _mix(spec)))
         elif isinstance(spec, dict) and 'start' in spec:
             names = [n for n in ODE_STARTS if n in corpus_names()]
             corpus.get(_corpus_name(spec.get('start'), names))
@@ -1671,6 +1750,9 @@ def _crash_frame(text):
         if mm:
             return mm.group(1).rsplit('/src/pharmpy/', 1)[1] + ':' + mm.group(2)
     return 'unknown'
+
+
+HANG_GUARD_S = 150  # protection against non-termination inside symengine / sympy only; normal cases take 0.1-3 s
 
 
 def isolated(run):
@@ -1716,13 +1798,28 @@ def isolated(run):
                 os._exit(code)
         os.close(wfd)
         chunks = []
+        import select
+        import signal
+        import time
+
+        deadline = time.time() + HANG_GUARD_S
+        hung = False
         with os.fdopen(rfd, 'rb') as r:
             while True:
-                b = r.read(65536)
+                left = deadline - time.time()
+                if left <= 0 or not select.select([r], [], [], left)[0]:
+                    hung = True
+                    os.kill(pid, signal.SIGKILL)
+                    break
+                b = os.read(r.fileno(), 65536)
                 if not b:
                     break
                 chunks.append(b)
         _, status = os.waitpid(pid, 0)
+        if hung:
+            ftmp.close()
+            ntmp.close()
+            raise Reject(f'hang guard: case did not finish within {HANG_GUARD_S} s')
         if os.WIFSIGNALED(status):
             ftmp.seek(0)
             dump = ftmp.read()
@@ -1782,9 +1879,9 @@ def selfcheck():
 
 
 SUBCHECKS = [
-    SubCheck('refactor', lambda: REFACTOR_SPEC, isolated(run_refactor), quick=1500, thorough=24000, quick_time=240, thorough_time=1500),
-    SubCheck('solve_ode', lambda: SOLVE_SPEC, run_solve_ode, quick=128, thorough=1280, quick_time=240, thorough_time=1500),
-    SubCheck('evaluators', lambda: EVAL_SPEC, isolated(run_evaluators), quick=720, thorough=12000, quick_time=240, thorough_time=1500),
+    SubCheck('refactor', lambda: REFACTOR_SPEC, isolated(run_refactor), quick=1000, thorough=24000, quick_time=240, thorough_time=1500),
+    SubCheck('solve_ode', lambda: SOLVE_SPEC, run_solve_ode, quick=96, thorough=1280, quick_time=240, thorough_time=1500),
+    SubCheck('evaluators', lambda: EVAL_SPEC, isolated(run_evaluators), quick=480, thorough=12000, quick_time=240, thorough_time=1500),
 ]
 
 KNOWN_PREDICATES = {}
